@@ -93,6 +93,25 @@ fn run_node(n: &Node, cx: &Ctx) {
         cx.log.borrow_mut().last_mut().unwrap().0 = "ok".to_string();
         return;
     }
+    if n.k == "cb" {
+        // clone as an OUTER access: the children run from inside Clone::clone of a component that only
+        // the populated archetype `a` holds (Ta: Aq -- Ap is empty here; Th: Ar), i.e. while clone
+        // has the columns of `a` shared-borrowed. The world is reached through a raw pointer, which
+        // stands for the Rc / thread-local a safe client would use.
+        let my = cx.log.borrow().len() - 1;
+        let ty: &'static str = if n.a == "Aq" { "Ta" } else { "Th" };
+        let np = n as *const Node as usize;
+        let cp = cx as *const Ctx as usize;
+        crate::reg::CLONE_HOOK.with(|h| *h.borrow_mut() = Some((ty, Box::new(move || {
+            let (n, cx) = unsafe { (&*(np as *const Node), &*(cp as *const Ctx)) };
+            cx.log.borrow_mut()[my].0 = "ok".to_string();
+            run_nodes(&n.children, cx);
+        }))));
+        let r = guard(|| { let c = cx.w.clone(); drop(c); });
+        crate::reg::CLONE_HOOK.with(|h| *h.borrow_mut() = None);
+        if r.is_err() { std::panic::resume_unwind(Box::new("nested access refused inside clone")); }
+        return;
+    }
     // an iter over an empty archetype never invokes its closure: it counts as done, without body
     let empty = match n.a.as_str() { "Aq" => cx.w.aq.is_empty(), _ => cx.w.ar.is_empty() };
     match (n.a.as_str(), n.c.as_str()) {
